@@ -16,7 +16,7 @@ THEOREMS = ["fasta_read_write", "fasta_rewrap_invariant", "fasta_file_lines", "f
             "mask_length", "mask_normal", "mask_reverse", "alipid_bounds", "alipid_symmetric",
             "shuffle_mono_permutation", "shuffle_windows_permutation", "shuffle_kmers_permutation", "shuffle_mono_counts", "shuffle_reproducible",
             "reformat_afa_shape", "reformat_no_option_identity", "reformat_upper_idempotent", "reformat_rna_then_dna",
-            "reformat_roundtrip", "alistat_counts", "translate_orf_header"]
+            "reformat_roundtrip", "reformat_gap_columns", "alistat_counts", "translate_orf_header"]
 
 SQFORMATS = ["fasta", "embl", "genbank", "uniprot", "ddbj", "daemon", "hmmpgmd", "ncbi", "fmindex"]
 MSAFORMATS = ["stockholm", "pfam", "a2m", "afa", "psiblast", "clustal", "clustallike", "selex", "phylip", "phylips"]
@@ -751,6 +751,13 @@ def ref_mask(rng, i):
     if w < 0.3: args.append("-l")
     elif w < 0.6: args += ["-m", rng.choice(["N", "x", "-", "*", "Q"])]
     if rng.random() < 0.5: args += ["-x", str(rng.choice([0, 1, 2, 5, 1000, -1, -3]))]
+    if rng.random() < 0.15:       # -R: random access through the SSI index, mask lines in any order
+        # (known finding C13:esl-mask:-R:ssi-index-never-opened until /var/tmp/fixes-proposed/C13-mask-R-open-ssi.patch lands)
+        rng.shuffle(mlines)
+        mlines = mlines[:rng.randrange(1, len(mlines) + 1)]
+        return {"name": "ref-mask-%d-R" % i, "ref": True, "sticky": 3, "known_key": "C13:esl-mask:-R:ssi-index-never-opened",
+                "ops": [op_file("in.fa", fasta_text(recs, rng.choice([60, 50, 11]))), op_file("mask", "\n".join(mlines) + "\n"),
+                        op_run("esl-sfetch", ["--index", "in.fa"]), op_run("esl-mask", ["-R"] + args + ["in.fa", "mask"])]}
     return {"name": "ref-mask-%d" % i, "ref": True, "sticky": 2,
             "ops": [op_file("in.fa", ref_fasta_text(rng, recs)), op_file("mask", "\n".join(mlines) + "\n"),
                     op_run("esl-mask", args + ["in.fa", "mask"])]}
@@ -774,6 +781,10 @@ def ref_reformat(rng, i):
         if w < 0.25: args.append(a)
         elif w < 0.5: args.append(b)
     if mode == "aa" and rng.random() < 0.3: args += ["--gapsym", rng.choice([".", "_", "x", "~"])]
+    if mode == "aa" and "--gapsym" not in args and rng.random() < 0.4:
+        gopt = rng.choice(["--mingap", "--nogap"])
+        if any((all if gopt == "--nogap" else any)(r[2][c] not in "-_.~" for r in rows) for c in range(len(rows[0][2]))):
+            args.append(gopt)         # at least one column survives
     if rng.random() < 0.2: args += ["--rename", rng.choice(["new", "s", "x.y"])]
     if rng.random() < 0.25: args += ["--replace", rng.choice(["A:x", "AC:ca", "acgt:ACGT", "_:-", "N:n", "XYZ:NNN"])]
     rng.shuffle(args) if not any(a.startswith("--") for a in args) else None
